@@ -679,6 +679,12 @@ def spectral_tie(ctx):
         vecs.append([(-1.0) ** i for i in range(d)])                      # even d: only the Nyquist coefficient
         vecs.append([1.0 if i % 2 == 0 else 2.0 for i in range(d)])       # interior coefficients vanish
         vecs.append([1.0] + [0.0] * (d - 1))
+        if d >= 3:
+            # positive sign, mirror-symmetric (v = ~v), with exactly REAL NEGATIVE interior Fourier coefficients
+            # (their fractional powers leave the real axis; the half-spectrum path keeps the result real)
+            hs = [complex(2.0 + rng.randint(0, 4) / 4.0)] + [complex(-(1 + rng.randint(0, 6)) / 4.0) for _ in range(d // 2 - 1)] \
+                + [complex(-(1 + rng.randint(0, 6)) / 4.0) if d % 2 == 1 else complex(1.0 + rng.randint(0, 4) / 4.0)]
+            vecs.append(m_irfft(hs[:d // 2 + 1], d))
         for v in vecs:
             fv = np.array(v, float)
             sc = float(np.abs(fv).sum()) + 1.0
@@ -720,7 +726,19 @@ def spectral_tie(ctx):
             dc, ny = sum(v), sum((-1) ** i * x for i, x in enumerate(v))
             # fractional powers amplify a coefficient that is zero only up to rounding (|z|**0.5): float boundary, skipped
             if dc > 0 and (d % 2 == 1 or ny >= 0) and min(abs(z) for z in mr) > 1e-6 * sc:
-                for e in (0.5, 1.5, 2.25):
+                # oracle on the implementation alone: non-negative real exponents add under binding
+                pa, pb, pc = A.binding_power(fv, 0.5), A.binding_power(fv, 0.75), A.binding_power(fv, 1.25)
+                if float(np.abs(A.bind(pa, pb) - pc).max()) > 1e-9 * sc ** 1.25 * d or \
+                        float(np.abs(A.bind(pa, pa) - fv).max()) > 1e-9 * sc * d:
+                    ctx.fail(dict(case, exponents=[0.5, 0.75, 1.25]),
+                             f"|v^0.5*v^0.75 - v^1.25| = {float(np.abs(A.bind(pa, pb) - pc).max()):.3e}, "
+                             f"|v^0.5*v^0.5 - v| = {float(np.abs(A.bind(pa, pa) - fv).max()):.3e}",
+                             "v^a (*) v^b = v^(a+b) for a, b >= 0 (positive sign)", where="fractional-additivity-hrr")
+                # a coefficient ON the negative real axis sits on the branch cut of the complex power: the sign of its
+                # (zero) imaginary part picks the branch, so the VALUE of v^e is a float boundary there (both branches
+                # satisfy the additivity law checked above); the value tie is skipped for such vectors
+                on_cut = any(z.real < 0 and abs(z.imag) <= 1e-9 * sc for z in mr)
+                for e in (() if on_cut else (0.5, 1.5, 2.25)):
                     mp = m_irfft([z ** e for z in mr], d)
                     e5 = float(np.abs(A.binding_power(fv, e) - np.array(mp)).max())
                     worst["power"] = max(worst["power"], e5 / (sc ** max(1.0, e)))
